@@ -97,7 +97,7 @@ pub fn run(ctx: &Ctx) -> i32 {
             a += step;
         }
     }
-    let cs = run_cases(ctx, jobs.len() as u64, |j| {
+    let cs = run_stage(ctx, "corpus", jobs.len() as u64, |j| {
         let (fi, from, to) = jobs[j as usize];
         let (name, bytes) = &corpus[fi];
         let mut res = CaseResult::ok(crate::rng::hash_bytes(&bytes[..bytes.len().min(4096)]) ^ from as u64, 0, "corpus-range");
